@@ -1,9 +1,12 @@
 (* Correspondence glue for C17: compares the generated values computed by model/GenPath.v
    with the values the real Sealer set during a dry-run submit (harness/drive_c17.py).   *)
-From Coq Require Import ZArith NArith List Bool Arith.
+From Coq Require Import ZArith NArith List Bool Arith Ascii String.
 From XV Require Import model.Walk model.GenPath.
 Import ListNotations.
 Open Scope N_scope.
+
+(* strings of the generated case files: their bytes *)
+Definition s (x : string) : str := map N_of_ascii (list_ascii_of_string x).
 
 Fixpoint list_eqb {A} (e : A -> A -> bool) (a b : list A) : bool :=
   match a, b with
@@ -43,16 +46,23 @@ Definition values_agree (h : heap) (l : list entry) (vals : list (nat * str * op
   && forallb (fun e => existsb (fun v : nat * str * option ppath =>
                                   let '(n, a, _) := v in Nat.eqb n (g_node e) && str_eqb a (g_arg e)) vals) l.
 
+(* monomorphic constructors: cheap to elaborate in the generated case files *)
+Definition F (k : str) (v : value) : str * value := (k, v).
+Definition G2 (a f : str) : str * str := (a, f).
+Definition V3 (n : nat) (a : str) (p : option ppath) : nat * str * option ppath := (n, a, p).
+Definition case_t := (heap * list (list (str * str)) * nat * answer)%type.
+Definition Case (h : heap) (g : list (list (str * str))) (r : nat) (a : answer) : case_t := (h, g, r, a).
+
 Definition check_with (esc : str -> str)
-           (c : heap * list (list (str * str)) * nat * answer) : bool :=
+           (c : case_t) : bool :=
   let '(h, gens, root, a) := c in
   match generated esc h gens root jd with
   | None => false
   | Some l =>
       list_eqb Bool.eqb (map sealed h) (a_sealed a)
       && values_agree h l (a_values a) && values_agree h l (a_values2 a)
-      (* the hypotheses of C17_distinct that do not depend on the keys hold on the generated heaps *)
-      && files_plainb gens
+      (* the hypotheses of C17_distinct_wf hold on the generated heaps *)
+      && files_plainb gens && names_wfb h && task_targets_cutb h
   end.
 
 (* the model of the repaired code *)
